@@ -1,0 +1,11 @@
+//go:build verif
+
+// Contracts for the gvc verifier (see /verif/DESIGN.md). Comment-only file: it adds no code.
+package zkproof
+
+//@ func (*QrRepresentationProofStructure).CommitmentsFromProof
+//@   property C12 C08
+//@   trusted string-keyed dynamic lookups (BaseLookup, ProofLookup) are not within the verified subset; the function ends in `return append(list, commitment)` with a commitment it allocated
+//@   requires pk != nil && pk.N != nil && challenge != nil
+//@   ensures appended: len(result) == len(list) + 1 && result[len(list)] != nil && fresh(result[len(list)]) && forall i in 0..len(list) :: result[i] == list[i]
+//@   modifies nothing
